@@ -323,6 +323,9 @@ def tasks(tier):
                 ts.append(task(PROP, M_, "CtcBatchH", T=T, V=V, width=W, K=min(K, 4), time_limit=900))
     for T, V, W, vm in ((3, 2, 3, False), (3, 2, 2, True), (2, 2, 4, False)) if q else [(T, 2, W, vm) for T in (2, 3) for W in (2, 3, 4) for vm in (False, True)]:
         ts.append(task(PROP, M_, "CtcFusionH", T=T, V=V, N=2 if W < 4 else 1, width=W, K=3, beta=0.5, valid_mixture=vm, time_limit=900, nvalidate=1))
+    # four frames: a prefix that survives a frame un-extended while changing its beam slot carries a state that differs from its neighbours' only from the third frame on
+    for W, vm in ((2, False),) if q else ((2, False), (2, True), (3, False)):
+        ts.append(task(PROP, M_, "CtcFusionH", T=4, V=2, N=1, width=W, K=3, beta=0.5, valid_mixture=vm, time_limit=1500, nvalidate=1))
     return ts
 
 
